@@ -11,7 +11,8 @@ Actors and where their steps come from
   a SEPARATE step: a tracer send, and for a sub-process the start of its monitor, sit between the two, and an
   interrupting listener that fires in between gets its cancel message into the activity's inbox FIRST). Their
   order is the fact `Cfg.early` (`hStage` counts how many of the two have been executed; the forwarder goroutine
-  is created after both), `forward` (`out <- rsp`), `clear` (`active := 0`, a separate statement after the send);
+  is created after both), `forward` (`out <- rsp`), `clear` (`active := 0`, a separate statement; before or after the
+  hand-over: fact `Cfg.resetFirst`);
 * the task / sub-process run loop: `taskTake` handles the head of its inbox: a next-action message spawns the request
   goroutine; a cancel message is answered `false` while `active.Load() > 1` (a request goroutine is counted), else
   `true` and the run loop EXITS;
@@ -49,10 +50,14 @@ structure Cfg where
   /-- `harness.run` stores `active = 1` BEFORE it calls `activity.NextAction` (which queues the activity's first
       message); `false`: the other way round -/
   early : Bool
+  /-- the harness's answer-relay goroutine stores `active = 0` BEFORE it hands the activity's answer to the token
+      (`out <- rsp`); `false`: afterwards -/
+  resetFirst : Bool
 deriving DecidableEq, Repr
 
 /-- what the code is today -/
-def Cfg.code : Cfg := { gated := true, once := true, refuse := true, share := true, early := true }
+def Cfg.code : Cfg :=
+  { gated := true, once := true, refuse := true, share := true, early := true, resetFirst := true }
 
 inductive LPhase where
   | idle        -- flow not started (host never reached)
@@ -113,8 +118,8 @@ structure St where
   hStage : Nat := 0
   /-- `harness.active` -/
   hActive : Bool := false
-  /-- the forwarder sent on `out` and has not yet executed `active := 0` -/
-  clearPending : Bool := false
+  /-- the answer-relay goroutine has executed `active := 0` -/
+  cleared : Bool := false
   /-- the activity's run loop is alive -/
   tRun : Bool := false
   /-- the request goroutine is between `active.Add(1)` and `active.Add(-1)` (so `active.Load() > 1`) -/
@@ -204,10 +209,15 @@ def step (cfg : Cfg) (s : St) : Label → Option St
     else none
   | .forward =>
     match s.req, s.hStage with
-    | .responded, 2 => some { s with req := .forwarded, clearPending := true }
+    | .responded, 2 => if cfg.resetFirst && !s.cleared then none else some { s with req := .forwarded }
     | _, _ => none
   | .clear =>
-    if s.clearPending then some { s with clearPending := false, hActive := false } else none
+    if s.cleared then none
+    else
+      (match s.req, s.hStage with
+       | .responded, 2 => if cfg.resetFirst then some { s with cleared := true, hActive := false } else none
+       | .forwarded, _ | .done, _ => if cfg.resetFirst then none else some { s with cleared := true, hActive := false }
+       | _, _ => none)
   | .hostTake =>
     match s.req with
     | .forwarded => some { s with req := .done, normal := s.normal + 1 }
@@ -268,9 +278,9 @@ def quiet (cfg : Cfg) (s : St) : Bool :=
   && !((match s.req with | .atHarness => true | _ => false) && (s.hStage == 0 || (cfg.early && s.hStage == 1)))
   && !(!cfg.early && s.hStage == 1)
   && !((match s.req with | .responded => true | _ => false) && s.hStage == 2)
+  && !(!s.cleared && !cfg.resetFirst && (match s.req with | .forwarded | .done => true | _ => false))
   && !(s.tRun && !s.tq.isEmpty)
   && !(s.counted && (match s.req with | .responded | .forwarded | .done => true | _ => false))
-  && !s.clearPending
   && s.ls.all Listener.quiet
 
 /-- a listener flow that is still at its boundary event is a live token of the wait group it was created with -/
